@@ -6,10 +6,10 @@ package main
 // library's type objects.
 
 import (
-	"reflect"
 	"fmt"
 	"math"
 	"math/rand"
+	"reflect"
 	"strconv"
 	"strings"
 	"time"
@@ -767,12 +767,12 @@ func coerceGen(dir string) func(r *rand.Rand, tier string) []Case {
 				if lit, ok := coerceLitText(v); ok && n%(2*reqEvery) == 0 {
 					d := fmt.Sprintf("reqd%d", (n/(2*reqEvery))%4)
 					cases = append(cases, Case{ID: fmt.Sprintf("k%dd", n), Input: sx.L("coerce", d, t, v),
-						Tags: append(append([]string{}, tags...), "nontrivial", "request-variable-default"),
+						Tags:  append(append([]string{}, tags...), "nontrivial", "request-variable-default"),
 						Human: "query($u: Int, $v: " + coerceTypeText(t) + " = " + lit + ") { f(a: $v) } (" + d + ": no value / empty map / other variable only / null given)"})
 				}
 				if vs, isAtom := v.(string); (!isAtom || vs != "nil") && n%(2*reqEvery) == reqEvery%(2*reqEvery) {
 					cases = append(cases, Case{ID: fmt.Sprintf("k%dp", n), Input: sx.L("coerce", "reqp", t, v),
-						Tags: append(append([]string{}, tags...), "nontrivial", "request-variable-over-default"),
+						Tags:  append(append([]string{}, tags...), "nontrivial", "request-variable-over-default"),
 						Human: "query($u: Int = 1, $v: " + coerceTypeText(t) + " = " + decoyDefault(t) + ") { f(a: $v) } with v = " + sx.String(v)})
 				}
 			}
@@ -896,6 +896,9 @@ func coerceGen(dir string) func(r *rand.Rand, tier string) []Case {
 				if r.Intn(8) == 0 {
 					return "nil"
 				}
+				if r.Intn(8) == 0 {
+					return genV(tl[1], d+1) // one level short: a value of the element type where the list is declared
+				}
 				out := []sx.S{"l"}
 				for i := r.Intn(4); i > 0; i-- {
 					out = append(out, genV(tl[1], d+1))
@@ -944,6 +947,30 @@ func coerceGen(dir string) func(r *rand.Rand, tier string) []Case {
 		for i := 0; i < nrand; i++ {
 			t := genT(0)
 			add(t, genV(t, 0), "nested")
+		}
+		// a well-formed value of the element type where a list of it is declared (alone, or as a member
+		// of a list one level too shallow), in every request route
+		short := 0
+		for _, t := range types {
+			for _, wrap := range []func(sx.S) sx.S{
+				func(t sx.S) sx.S { return sx.L("l", t) }, func(t sx.S) sx.S { return sx.L("l", sx.L("nn", t)) },
+				func(t sx.S) sx.S { return sx.L("nn", sx.L("l", t)) }, func(t sx.S) sx.S { return sx.L("l", sx.L("l", t)) }} {
+				wt := wrap(t)
+				for k := 0; k < 2; k++ {
+					v := genV(t, 3)
+					for try := 0; try < 20 && sx.String(v) == "nil"; try++ {
+						v = genV(t, 3)
+					}
+					if sx.Head(sx.List(wt)[1]) == "l" && k == 1 {
+						v = sx.L("l", v, sx.L("l", genV(t, 3)))
+					}
+					short++
+					for n%reqEvery != reqEvery-1 { // the next add is the one that also travels through a request
+						n++
+					}
+					add(wt, v, "nested", "one-level-short")
+				}
+			}
 		}
 		return cases
 	}
